@@ -8,7 +8,8 @@ from allsims import SIR, KIND, fl
 from sims import arr, iarr
 
 SIMS = ["Gillespie_SIR", "Gillespie_SIS", "fast_SIR", "fast_SIS", "fast_nonMarkov_SIR", "fast_nonMarkov_SIS",
-        "discrete_SIR", "Gillespie_simple_contagion", "Gillespie_complex_contagion"]
+        "discrete_SIR", "Gillespie_simple_contagion", "Gillespie_complex_contagion",
+        "basic_discrete_SIS"]          # (basic_discrete_SIR / percolation_based_discrete_SIR make extra draws with full data: C12's business)
 
 
 def generated_model(ctx, reqs, metas):
@@ -70,9 +71,9 @@ def run(ctx):
     for sim in SIMS:
         for k in range(per):
             c = allsims.gen_case(ctx.rng, sim)
-            if sim == "discrete_SIR" and c["tmax"] != "inf" and (F(c["tmax"]) - F(c["tmin"])).denominator != 1:
+            if KIND[sim].endswith("Disc") and c["tmax"] != "inf" and (F(c["tmax"]) - F(c["tmin"])).denominator != 1:
                 c["tmax"] = str(F(c["tmin"]) + ctx.rng.choice([1, 2, 3, 6]))   # whole number of steps (cf. C04)
-            if sim == "discrete_SIR" and c["init"]["kind"] not in ("list", "single"):
+            if KIND[sim].endswith("Disc") and c["init"]["kind"] not in ("list", "single"):
                 c["init"] = dict(kind="list", nodes=[0])
             if sim == "fast_nonMarkov_SIR":
                 c["dur"] = [d if d != "0" else "1/4" for d in c["dur"]]
@@ -85,7 +86,7 @@ def run(ctx):
                 ctx.violation("%s(return_full_data=True) raised %s" % (sim, full["err"]), dict(rep, error=full["err"], tb=full.get("tb")))
                 continue
             tape = full["tape"]
-            if sim == "discrete_SIR":
+            if sim in ("discrete_SIR", "basic_discrete_SIS"):
                 tape = [d for d in tape if d[0] != "c"]      # full-data mode alone draws the recorded infector
             plain, _, _ = allsims.run_impl(c, tape=tape, full=False)
             if not plain["ok"]:
